@@ -201,6 +201,7 @@ func init() {
 			rq = c.Choose(n + 1)
 			ps = c.Choose(n + 1)
 		}
+		c08Deviated = am != 0 || om != 0 || cl != 0 || sn || hm != 0
 		key := fmt.Sprintf("s%d/a%d/o%d/c%d/n%v/x%v/r%d/p%d/h%d/v%d", si, am, om, cl, sn, exec, rq, ps, hm, c08Variant)
 		td, ok := cache[key]
 		if !ok {
@@ -220,7 +221,12 @@ func init() {
 		c08LateGroup = mode == 3
 		// 1: PassAfterNonOption is set; 2: the parser has a string option whose separate argument is spelled like a command name
 		c08Variant = c.Deviate(3)
+		// thorough: sequences of 4 tokens go with the plain trees only (no declaration deviation), sequences of <= 3 with <= 2 deviations
+		deep := c.Thorough && c.Bool()
 		td, key, ok := build(c, mode == 2)
+		if deep && (c08Variant != 0 || c08Deviated) {
+			c.Skip()
+		}
 		if c08Variant != 0 {
 			c.Hit("variant")
 		}
@@ -232,10 +238,13 @@ func init() {
 			c.Skip()
 		}
 		maxDepth := 3
-		if c.Thorough && mode <= 1 {
+		if deep {
 			maxDepth = 4
 		}
 		n := c.Choose(maxDepth + 2)
+		if deep && n < 4 {
+			c.Skip() // the shorter sequences are covered by the other family
+		}
 		var argv []string
 		if n == maxDepth+1 {
 			// beyond the depth bound, a thin probe: the full path to one node, one unit before it and one after it
@@ -340,17 +349,18 @@ func init() {
 		},
 		Rule: "every command tree with <= 4 commands and depth <= 3 (all 32 parent arrays) plus the chain of depth 4, one counter flag per node; deviations from the plain tree (bounded: 1 quick / 2 thorough): PassAfterNonOption set, a string option of the parser given a command name as its separate argument, aliases on <= 2 nodes, " +
 			"subcommands-optional on any subset of inner nodes incl. the parser, one node's flag letter clashing with its parent's or grandparent's, a deeper command reusing a top-level command's name, any subset of commands hidden; " +
-			"x {struct tags, API, API with executable commands, API where the parser's flag sits in a group that is added after the commands and after a parse that selected each of them} x every sequence of <= 3 tokens (thorough: <= 4 for the tag and plain API builds) over all names, aliases, every node's flag, one long flag and an unknown word, plus beyond that bound [unit, full path to any node, unit]; oracle = CLM active chain, scoping (which counter was incremented), " +
+			"x {struct tags, API, API with executable commands, API where the parser's flag sits in a group that is added after the commands and after a parse that selected each of them} x every sequence of <= 3 tokens (thorough: 4 tokens on the trees without deviation, all four build modes) over all names, aliases, every node's flag, one long flag and an unknown word, plus beyond that bound [unit, full path to any node, unit]; oracle = CLM active chain, scoping (which counter was incremented), " +
 			"remaining arguments and ErrCommandRequired / ErrUnknownCommand",
 		Assumptions:  []string{"deviation-bounded over declaration features, exhaustive over trees and token sequences"},
 		RequiredHits: []string{"model-clean", "chain-depth>=2", "command-fault", "other-fault"},
-		Bound:        [2]string{"token sequences <= 3, <= 1 declaration deviation", "token sequences <= 4, <= 2 declaration deviations"},
+		Bound:        [2]string{"token sequences <= 3, <= 1 declaration deviation", "token sequences <= 3 with <= 2 declaration deviations; 4 tokens on trees without deviation"},
 		BudgetS:      [2]int{170, 1500},
 	})
 }
 
 var c08LateGroup bool
 var c08Variant int
+var c08Deviated bool
 
 var c08build func(c *explore.Ctx, exec bool) (*treeDecl, string, bool)
 var buildX func(c *explore.Ctx, exec bool, extras bool) (*treeDecl, string, bool)
